@@ -1,5 +1,6 @@
 #!/bin/bash
 # usage: seedcheck.sh <ID> <k> <pkgdir-for-demo|-> <go test -run regex|-> [extra check ids...]
+# SEEDDEMOFLAGS (e.g. -race) is passed to the go test run of the demonstration.
 # Confirms a seeded change (written by a sub-agent into /tmp/mut/<ID>-out/m<k>.*) in a fresh scratch worktree:
 #   clean tree + demonstration passes, changed tree + demonstration fails, changed tree + full suite passes;
 # then runs ./check <ID> quick (plus extra ids) against the changed tree and stores everything in /verif/seeded/<ID>-m<k>/.
@@ -17,7 +18,7 @@ res() { echo "$1" | tee -a "$OUT/verification.log"; }
 demo() { # run the demonstration in the worktree; echo PASS/FAIL
   if [ -f "$SRC/m${K}_demo_test.go" ] && [ "$PKG" != "-" ]; then
     cp "$SRC/m${K}_demo_test.go" "$WT/$PKG/zz_seed_demo_test.go"
-    (cd "$WT/$PKG" && timeout 600 go test -vet=off -count=1 -run "$RUN" . > /tmp/seeddemo-$ID-$TAG$K.out 2>&1); rc=$?
+    (cd "$WT/$PKG" && timeout 900 go test $SEEDDEMOFLAGS -vet=off -count=1 -run "$RUN" . > /tmp/seeddemo-$ID-$TAG$K.out 2>&1); rc=$?
     rm -f "$WT/$PKG/zz_seed_demo_test.go"
   elif [ -d "$SRC/m${K}_demo" ]; then
     rm -rf "$WT/zz_seed_demo"; cp -r "$SRC/m${K}_demo" "$WT/zz_seed_demo"
